@@ -39,6 +39,7 @@ pub struct RunOut {
     pub violation: Option<Violation>,
     pub trace: Vec<u32>,
     pub mismatch: bool,
+    pub branching: Vec<Vec<u32>>,
 }
 
 fn model_matches(real: &[Lists], m: &Model) -> bool {
@@ -189,6 +190,7 @@ where
         violation: v,
         trace: trace.clone(),
         mismatch: false,
+        branching: outcome.branching.clone(),
     };
     match &outcome.aborted {
         Some((AbortKind::ReplayMismatch, _)) => {
@@ -196,6 +198,7 @@ where
                 violation: None,
                 trace,
                 mismatch: true,
+                branching: Vec::new(),
             }
         }
         Some((AbortKind::Deadlock, d)) => {
@@ -317,6 +320,45 @@ impl Conc {
                 (v, p)
             });
         }
+        if sc.policy.kind == PolicyKind::Enumerate {
+            // every schedule of this (small) scenario, depth first, within a budget; both lock
+            // queueing policies
+            let mut complete = true;
+            for wp in [false, true] {
+                let mut sc2 = sc.clone();
+                sc2.policy.writer_pref = wp;
+                let mut stack: Vec<Vec<u32>> = vec![Vec::new()];
+                let mut runs = 0u32;
+                while let Some(prefix) = stack.pop() {
+                    if runs >= 1200 {
+                        complete = false;
+                        break;
+                    }
+                    runs += 1;
+                    let plen = prefix.len();
+                    let out = run_once::<F>(&sc2, Rng::new(sc.sched_seed), Some(prefix), only_inv, stats);
+                    stats.inc("schedules_run");
+                    stats.inc("schedules_enumerated");
+                    if let Some(v) = out.violation {
+                        let mut p = sc2.clone();
+                        p.forced = Some(out.trace);
+                        p.tries = 1;
+                        return Some((v, p));
+                    }
+                    for i in (plen..out.trace.len().min(out.branching.len())).rev() {
+                        for a in &out.branching[i] {
+                            if *a != out.trace[i] {
+                                let mut child = out.trace[..i].to_vec();
+                                child.push(*a);
+                                stack.push(child);
+                            }
+                        }
+                    }
+                }
+            }
+            stats.inc(if complete { "scenarios_with_every_schedule_enumerated" } else { "scenarios_enumeration_cut_by_budget" });
+            return None;
+        }
         for t in 0..sc.tries.max(1) {
             let out = run_once::<F>(sc, Rng::new(rng::mix(sc.sched_seed ^ (t as u64) << 20)), None, only_inv, stats);
             stats.inc("schedules_run");
@@ -391,7 +433,9 @@ impl Engine for Conc {
             }
             tasks.push(script);
         }
+        let tiny = tasks.len() <= 3 && tasks.iter().map(|t| t.len()).sum::<usize>() <= 3;
         let kind = match rng.below(10) {
+            _ if tiny && rng.chance(1, if tier == Tier::Quick { 150 } else { 60 }) => PolicyKind::Enumerate,
             0..=3 => PolicyKind::Uniform,
             4..=5 => PolicyKind::Pct { d: rng.range(1, 3) as u32 },
             6..=8 => PolicyKind::Sticky { num: *rng.pick(&[5u32, 10, 25, 50]) },
@@ -427,6 +471,9 @@ impl Engine for Conc {
         let fresh = |mut c: ConcSc| {
             c.forced = None;
             c.tries = 120;
+            if c.policy.kind == PolicyKind::Enumerate {
+                c.policy.kind = PolicyKind::Uniform;
+            }
             c
         };
         // drop a whole task
